@@ -354,7 +354,9 @@ def sequence_family():
   """[(preamble, [statement lines])]; every statement is `name = expr` or an expression statement, executed in
   order in ONE namespace.  Families: (a) ==-equal tuple/constant literals of different element types used later;
   (b) instances whose attributes are set 0-3 helper calls below __init__; (c) attribute rebound through an outer
-  object between two identical method calls.  (Containers mutated between reads are not included: their element
+  object between two identical method calls; (d) keyword-argument calls into user code whose body makes calls; (e)
+  cooperating __init__ methods under multiple inheritance; (f) the other data-model protocols on user classes.
+  (Containers mutated between reads are not included: their element
   types become unions and pytype, by design, only reports when every member fails.)"""
   out = []
   # (a)
@@ -423,6 +425,31 @@ def sequence_family():
         "t = Three()", "t.mix", "t.left", "t.right", "t.base", "t.three", "t.only_right()", "t.twice()", "t.right.upper()",
         "t.three.append(4)", "t.three.upper()", "t.nope",
         "l = Left()", "l.left", "l.base", "l.right", "r = Right()", "r.right", "r.left", "r.only_right() + 'x'"]
+  out.append((pre, st))
+  # (f) the other protocols of the data model on user classes that define / inherit / lack the dunder: reflected and
+  # in-place addition, ==, `in`, len, unary + and ~, truth, iteration (list(), comprehension, unpacking, for), call,
+  # subscript — every statement on fresh names (a statement that raises leaves pytype with Any for its target)
+  pre = ("class P:\n  def __init__(self):\n    self.v = 1\n"
+         "class A(P):\n  def __add__(self, o):\n    return 1\n  def __iadd__(self, o):\n    return 's'\n"
+         "  def __contains__(self, x):\n    return True\n  def __len__(self):\n    return 3\n"
+         "  def __iter__(self):\n    return iter([1])\n  def __pos__(self):\n    return 2.5\n"
+         "  def __bool__(self):\n    return False\n  def __eq__(self, o):\n    return 'eq'\n"
+         "class Bq(P):\n  def __radd__(self, o):\n    return b'b'\n  def __getitem__(self, i):\n    return [1, 2][i]\n"
+         "  def __invert__(self):\n    return self\n  def __call__(self, x=1):\n    return (x,)\n"
+         "class Cq(A):\n  pass\n")
+  st = ["a = A()", "b = Bq()", "c = Cq()", "p = P()",
+        "a + p", "p + a", "p + b", "b + p", "p + p", "a + a", "c + 1", "1 + c", "1 + b", "c + b", "b + c",
+        "p == a", "a == p", "p != p", "(a == p).upper()", "(a == p).bit_length()",
+        "1 in a", "1 in b", "1 in p", "1 not in c",
+        "len(a)", "len(b)", "len(p)", "len(c)", "len(a).bit_length()", "len(a).upper()",
+        "+a", "+b", "+p", "~b", "~a", "~p", "not a", "not p", "(+a).hex()", "(+a).upper()", "(~b).v", "(~b).nope",
+        "list(a)", "list(b)", "list(p)", "[x for x in a]", "[x for x in p]", "x1, = a", "x2, x3 = b", "x4, = p",
+        "a2 = A()", "a2 += 1", "a2.upper()", "a3 = A()", "a3 += 1", "a3.bit_length()", "p2 = P()", "p2 += 1",
+        "c2 = Cq()", "c2 += 1", "c2.upper()", "c3 = Cq()", "c3 += 1", "c3.bit_length()",
+        "b()", "b(2)[0].bit_length()", "b(2).upper()", "a()", "P()()", "b[0]", "b[0].bit_length()", "b[0].upper()",
+        "a[0]", "P()[0]", "bool(a)", "bool(p)", "iter(a)", "iter(P())", "next(iter(a)).bit_length()", "sorted(a)",
+        "sorted(P())", "(a + p).bit_length()", "(a + p).upper()", "(p + b).decode()", "(p + b).bit_length()",
+        "for y1 in a: pass", "for y2 in b: pass", "for y3 in P(): pass"]
   out.append((pre, st))
   return out
 
